@@ -114,8 +114,7 @@ Print Assumptions C03_latitude_exit.
 
 (* inverse map: for e <= 0.1, cone constants of either sign (both hemispheres), |n (lon - lon0)| < PI/2:
    whenever toWGS84 returns, the longitude is exact and the latitude is within EPSILON/98 <= 1.1e-13 rad.
-   (That the loop returns within the fuel is not part of this statement; the model's None = C++ not returning,
-   which the harness would report as HANG.) *)
+   (Conditional on the loop returning; C03_inverse_total below removes the condition for fuel >= 8.) *)
 Theorem C03_inverse_exact : forall (pr : projection (T:=R)) e fuel lat lon w,
   0 <= e <= / 10 -> - PI / 2 < lat < PI / 2 ->
   p_c pr <> 0 -> p_n pr <> 0 -> - PI / 2 < p_n pr * (lon - p_lon0 pr) < PI / 2 ->
@@ -129,6 +128,29 @@ Proof.
   exact (computeLatitude_accuracy fuel e lat l He Hl E).
 Qed.
 Print Assumptions C03_inverse_exact.
+
+(* termination: for e <= 0.1 the loop of computeLatitude exits within 8 passes for every isometric latitude
+   (so the fuel 500 used by the executed model is never exhausted on the property's domain) *)
+Theorem C03_latitude_loop_terminates : forall L e k, 0 <= e <= / 10 ->
+  exists r, computeLatitude ROps (8 + k) L e = Some r.
+Proof. exact computeLatitude_terminates. Qed.
+Print Assumptions C03_latitude_loop_terminates.
+
+(* inverse map, total form: with fuel >= 8 toWGS84 returns, the longitude is exact and the latitude is within
+   EPSILON/98 of the original, on cones of either hemisphere *)
+Theorem C03_inverse_total : forall (pr : projection (T:=R)) e k lat lon,
+  0 <= e <= / 10 -> - PI / 2 < lat < PI / 2 ->
+  p_c pr <> 0 -> p_n pr <> 0 -> - PI / 2 < p_n pr * (lon - p_lon0 pr) < PI / 2 ->
+  exists w, toWGS84 ROps (8 + k) pr e (toLambert ROps pr e (mkWgs lat lon)) = Some w /\
+            Rabs (w_lat w - lat) <= lambert_eps ROps / 98 /\ w_lon w = lon.
+Proof.
+  intros pr e k lat lon He Hl Hc Hn Hg.
+  destruct (computeLatitude_terminates (isolat e lat) e k He) as [l El].
+  exists (mkWgs l lon). split.
+  - rewrite (toWGS84_of_toLambert pr e (8 + k) lat lon Hc Hn Hg). rewrite El. reflexivity.
+  - cbn [w_lat w_lon]. split; [|reflexivity]. exact (computeLatitude_accuracy (8 + k) e lat l He Hl El).
+Qed.
+Print Assumptions C03_inverse_total.
 
 Theorem C03_epsilon_from_source : 0 < lambert_eps ROps <= / 100000000000.
 Proof. exact lambert_eps_bounds. Qed.
